@@ -5,6 +5,7 @@ package c20
 func buildEntries() []entryPoint {
 	return []entryPoint{
 		newStorageEntry(),
+		newHistoryEntry(),
 		newManifestEntry(),
 		newIndexEntry(),
 		newValuesEntry(),
